@@ -64,7 +64,7 @@ Proof.
   { intros q t s. destruct q as [|p|p].
     - f_equal. lia.
     - induction p as [|p IH] using Pos.peano_ind.
-      + replace (Z.of_nat n * 1 + t)%Z with (t + Z.of_nat n)%Z by ring. apply idft2_periodic. assumption.
+      + replace (Z.of_nat n * 1 + t)%Z with (t + Z.of_nat n)%Z by ring. exact (proj1 (idft2_periodic X n t s Hn)).
       + replace (Z.of_nat n * Z.pos (Pos.succ p) + t)%Z with ((Z.of_nat n * Z.pos p + t) + Z.of_nat n)%Z by lia.
         rewrite (proj1 (idft2_periodic X n _ s Hn)). exact IH.
     - induction p as [|p IH] using Pos.peano_ind.
@@ -76,7 +76,7 @@ Proof.
   { intros q t s. destruct q as [|p|p].
     - f_equal. lia.
     - induction p as [|p IH] using Pos.peano_ind.
-      + replace (Z.of_nat n * 1 + t)%Z with (t + Z.of_nat n)%Z by ring. apply idft2_periodic. assumption.
+      + replace (Z.of_nat n * 1 + t)%Z with (t + Z.of_nat n)%Z by ring. exact (proj2 (idft2_periodic X n s t Hn)).
       + replace (Z.of_nat n * Z.pos (Pos.succ p) + t)%Z with ((Z.of_nat n * Z.pos p + t) + Z.of_nat n)%Z by lia.
         rewrite (proj2 (idft2_periodic X n s _ Hn)). exact IH.
     - induction p as [|p IH] using Pos.peano_ind.
